@@ -1,5 +1,6 @@
 import ArrProofs.Lemmas.C12Rot
 import ArrProofs.Lemmas.C12FlipAll
+import ArrProofs.Lemmas.C12Roll
 /-!
 # C12 — flip, roll and quarter-turn rotation are exact coordinate maps with inverses
 
@@ -12,7 +13,10 @@ the Rust code may refuse the split).
 Vocabulary (definitions in `Lemmas/C12Perm.lean`, `Lemmas/C12Arr.lean`):
 `flipCoord shape k c = c.set k (shape[k] − 1 − c[k])`, `rollIdx s n i = ((i − s) mod n)` (Euclidean remainder on `Int`),
 `rollCoord shape k s c = c.set k (rollIdx s shape[k] c[k])`, `totalShift ps k` = sum of the shifts paired with axis `k`,
-`rollPairs nd shift axes` = the (normalised axis, shift) pairs.
+`rollPairs nd shift axes` = the (normalised axis, shift) pairs, `flipAll shape c` = every coordinate mirrored
+(`Lemmas/C12FlipAll.lean`), `Arr.turn` / `Arr.turns` = one / `n` quarter turns (`Lemmas/C12Rot.lean`).
+The three-arm induction is done once, on the common skeleton `permAxis` of `flipAxis` and `rollAxis`
+(`Lemmas/C12Axis.lean`: `flipAxis_eq_permAxis`, `rollAxis_eq_permAxis`, `permAxis_at`).
 -/
 namespace ArrModel.C12
 open ArrModel Arr
@@ -135,10 +139,32 @@ theorem flip_rejects (a : Arr α) (axes : List Int) (h : ∃ x ∈ axes, normali
   unfold Arr.flip
   simp only [hany, if_true]
 
-/-- **`flipud` / `fliplr` are the flips of axis 0 / axis 1**, refused below rank 1 / rank 2 -/
-theorem flipud_eq (a : Arr α) : a.flipud = if a.ndim = 0 then .err .UnsupportedDimension else a.flip (some [0]) := rfl
+/-- **`flipud` flips axis 0** (rank ≥ 1), **`fliplr` flips axis 1** (rank ≥ 2); below these ranks they refuse -/
+theorem flipud_at (a : Arr α) (hwf : a.WF) (hpos : ∀ d ∈ a.shape, 0 < d) (hnd : 1 ≤ a.ndim) :
+    ∃ r, a.flipud = .ok r ∧ r.shape = a.shape ∧ r.WF ∧
+      ∀ c, inRange a.shape c = true → r.get? c = a.get? (c.set 0 (a.shape.getD 0 0 - 1 - c.getD 0 0)) := by
+  have e : normalizeAxis a.ndim 0 = 0 := normalizeAxis_ofNat _ 0
+  have := flip_at a 0 hwf hpos (by rw [e]; omega)
+  rw [e] at this
+  unfold Arr.flipud
+  rw [if_neg (by omega)]
+  exact this
 
-theorem fliplr_eq (a : Arr α) : a.fliplr = if a.ndim = 0 ∨ a.ndim = 1 then .err .UnsupportedDimension else a.flip (some [1]) := rfl
+theorem fliplr_at (a : Arr α) (hwf : a.WF) (hpos : ∀ d ∈ a.shape, 0 < d) (hnd : 2 ≤ a.ndim) :
+    ∃ r, a.fliplr = .ok r ∧ r.shape = a.shape ∧ r.WF ∧
+      ∀ c, inRange a.shape c = true → r.get? c = a.get? (c.set 1 (a.shape.getD 1 0 - 1 - c.getD 1 0)) := by
+  have e : normalizeAxis a.ndim 1 = 1 := normalizeAxis_ofNat _ 1
+  have := flip_at a 1 hwf hpos (by rw [e]; omega)
+  rw [e] at this
+  unfold Arr.fliplr
+  rw [if_neg (by omega)]
+  exact this
+
+theorem flipud_fliplr_reject (a : Arr α) :
+    (a.ndim = 0 → a.flipud = .err .UnsupportedDimension) ∧ (a.ndim < 2 → a.fliplr = .err .UnsupportedDimension) := by
+  refine ⟨fun h => ?_, fun h => ?_⟩
+  · unfold Arr.flipud; rw [if_pos h]
+  · unfold Arr.fliplr; rw [if_pos (by omega)]
 
 /-! ### roll -/
 
@@ -183,47 +209,67 @@ theorem roll_list_at (a : Arr α) (shift axs : List Int) (hlen : shift.length = 
       ∀ c, inRange a.shape c = true →
         r.get? c = a.get? ((accumShifts (rollPairs a.ndim shift axs)).foldr (fun p c => rollCoord a.shape p.1 p.2 c) c) := by
   have hbc := broadcast_flat_same shift axs hlen hne
-  have hvalid := rollPairs_valid a.ndim shift axs hv
-  have hany : (accumShifts (rollPairs a.ndim shift axs)).any (fun p => decide (p.1 ≥ a.ndim)) = false := by
-    rw [List.any_eq_false]
-    intro p hp
-    have := hvalid p hp
-    simp only [decide_eq_true_eq]; omega
-  have hnd : 0 < a.ndim := by
-    cases axs with
-    | nil => cases shift with | nil => exact absurd rfl hne | cons _ _ => simp at hlen
-    | cons x _ => have := hv x List.mem_cons_self; omega
-  cases a with | mk elems shape =>
-  simp only [Arr.ndim] at hv hvalid hany hnd ⊢
-  simp only [Arr.WF] at hwf
-  cases shape with
-  | nil => simp at hnd
-  | cons d ds =>
-    cases ds with
-    | nil =>
-      -- rank 1: successive rotations of the element vector
-      obtain ⟨h2, h3⟩ := rotFold_at d (accumShifts (rollPairs 1 shift axs)) hvalid elems hwf
-      have hl : [d].prod = ((accumShifts (rollPairs 1 shift axs)).foldl (fun es p => rotateRight es (p.2 % (es.length : Int)).toNat) elems).length := by
-        rw [h2]; exact hwf.symm
-      refine ⟨⟨_, [d]⟩, ?_, rfl, hl.symm, fun c hc => h3 c hc⟩
-      unfold Arr.roll
-      simp only [Option.isNone_some, Bool.false_eq_true, if_false, Option.getD_some, hbc, Res.bind_ok]
-      simp only [Arr.ndim, List.length_cons, List.length_nil, Nat.lt_irrefl, if_false, Nat.zero_add]
-      have hany' := hany
-      simp only [List.length_cons, List.length_nil, Nat.zero_add, rollPairs] at hany'
-      simp only [rollPairs, hany', Bool.false_eq_true, if_false, Arr.reshape, Arr.flat, Arr.new]
-      exact if_pos (by simpa [rollPairs] using hl)
-    | cons d2 ds =>
-      obtain ⟨es, h1, h2, h3⟩ := rollFold_at (d :: d2 :: ds) hpos (accumShifts (rollPairs (ds.length + 1 + 1) shift axs))
-        hvalid elems hwf
-      have hl : (d :: d2 :: ds).prod = es.length := by rw [h2]; exact hwf.symm
-      refine ⟨⟨es, d :: d2 :: ds⟩, ?_, rfl, hl.symm, fun c hc => h3 c hc⟩
-      unfold Arr.roll
-      simp only [Option.isNone_some, Bool.false_eq_true, if_false, Option.getD_some, hbc, Res.bind_ok]
-      simp only [Arr.ndim, List.length_cons, List.length_nil, Nat.lt_irrefl, if_false, Nat.zero_add]
-      have hany' := hany
-      simp only [List.length_cons, rollPairs] at hany' h1
-      simp only [hany', Bool.false_eq_true, if_false, h1, Res.bind_ok, Arr.new, hl, if_true]
+  have hne' : shift.zip axs ≠ [] := by
+    cases shift with
+    | nil => exact absurd rfl hne
+    | cons _ _ => cases axs with
+      | nil => simp at hlen
+      | cons _ _ => simp
+  exact roll_of_bc a shift axs _ _ hbc hne' hwf hpos (fun p hp => hv _ (List.of_mem_zip hp).2)
+
+/-- **one shift for several axes**: the shift is applied along every listed axis (a repeated axis receives it repeatedly) -/
+theorem roll_one_shift_at (a : Arr α) (s : Int) (axs : List Int) (hn : 2 ≤ axs.length)
+    (hwf : a.WF) (hpos : ∀ d ∈ a.shape, 0 < d) (hv : ∀ x ∈ axs, normalizeAxis a.ndim x < a.ndim) :
+    ∃ r, a.roll [s] (some axs) = .ok r ∧ r.shape = a.shape ∧ r.WF ∧
+      ∀ c, inRange a.shape c = true →
+        r.get? c = a.get? ((accumShifts (axs.map (fun x => (normalizeAxis a.ndim x, s)))).foldr
+          (fun p c => rollCoord a.shape p.1 p.2 c) c) := by
+  have hbc := broadcast_flat_one_left s axs hn
+  have hne' : axs.map (fun x => (s, x)) ≠ [] := by cases axs with | nil => simp at hn | cons _ _ => simp
+  obtain ⟨r, h1, h2, h3, h4⟩ := roll_of_bc a [s] axs _ _ hbc hne' hwf hpos
+    (fun p hp => by obtain ⟨x, hx, rfl⟩ := List.mem_map.1 hp; exact hv x hx)
+  refine ⟨r, h1, h2, h3, ?_⟩
+  intro c hc
+  rw [h4 c hc]
+  simp only [pairsOf, List.map_map]
+  rfl
+
+/-- **several shifts for one axis**: they add up -/
+theorem roll_one_axis_at (a : Arr α) (shift : List Int) (ax : Int) (hn : 2 ≤ shift.length)
+    (hwf : a.WF) (hpos : ∀ d ∈ a.shape, 0 < d) (hk : normalizeAxis a.ndim ax < a.ndim) :
+    ∃ r, a.roll shift (some [ax]) = .ok r ∧ r.shape = a.shape ∧ r.WF ∧
+      ∀ c, inRange a.shape c = true →
+        r.get? c = a.get? (rollCoord a.shape (normalizeAxis a.ndim ax) shift.sum c) := by
+  have hbc := broadcast_flat_one_right shift ax hn
+  have hne' : shift.map (fun s => (s, ax)) ≠ [] := by cases shift with | nil => simp at hn | cons _ _ => simp
+  obtain ⟨r, h1, h2, h3, h4⟩ := roll_of_bc a shift [ax] _ _ hbc hne' hwf hpos
+    (fun p hp => by obtain ⟨x, hx, rfl⟩ := List.mem_map.1 hp; exact hk)
+  refine ⟨r, h1, h2, h3, ?_⟩
+  intro c hc
+  rw [h4 c hc]
+  have hvalid := pairsOf_valid a.ndim (shift.map (fun s => (s, ax))) (fun p hp => by obtain ⟨x, hx, rfl⟩ := List.mem_map.1 hp; exact hk)
+  have hin := inRange_foldr (fun (p : Nat × Int) c => rollCoord a.shape p.1 p.2 c) a.shape (fun p => p.1 < a.shape.length)
+      (fun x hx c hc => inRange_rollCoord a.shape c x.1 x.2 hc hx) _ hvalid c hc
+  have hl := inRange_length _ _ hc
+  congr 1
+  apply coord_ext _ _ (by rw [inRange_length _ _ hin, rollCoord_length, hl])
+  intro m hm
+  rw [inRange_length _ _ hin] at hm
+  rw [foldr_rollCoord_getD a.shape hpos _ hvalid c hc m hm, accumShifts_total, getD_rollCoord _ _ _ _ _ (by rw [hl]; exact hk)]
+  have htot : ∀ (l : List Int), totalShift (pairsOf a.ndim (l.map (fun s => (s, ax)))) m
+      = if normalizeAxis a.ndim ax = m then l.sum else 0 := by
+    intro l
+    induction l with
+    | nil => simp [pairsOf, totalShift]
+    | cons x xs ih =>
+      simp only [pairsOf, List.map_cons] at ih ⊢
+      rw [totalShift_cons, ih]
+      split <;> simp
+  rw [htot]
+  by_cases e : m = normalizeAxis a.ndim ax
+  · rw [if_pos e, if_pos e.symm, e]
+  · rw [if_neg e, if_neg (fun h => e h.symm)]
+    exact rollIdx_zero _ _ (inRange_getD_lt a.shape c hc m hm)
 
 /-- **roll along one axis** (either spelling) by EVERY integer shift: shape kept; the index along the axis is sent to
 `(i − s) mod n` (the element at index `j` moves to `(j + s) mod n`), every other coordinate stays -/
@@ -249,16 +295,14 @@ theorem roll_list_total (a : Arr α) (shift axs : List Int) (hlen : shift.length
       ∀ c, inRange a.shape c = true → ∃ c', inRange a.shape c' = true ∧ r.get? c = a.get? c' ∧
         ∀ k, k < a.ndim →
           c'.getD k 0 = ((((c.getD k 0 : Nat) : Int) - totalShift (rollPairs a.ndim shift axs) k) % ((a.shape.getD k 0 : Nat) : Int)).toNat := by
-  obtain ⟨r, h1, h2, _, h4⟩ := roll_list_at a shift axs hlen hne hwf hpos hv
-  have hvalid := rollPairs_valid a.ndim shift axs hv
-  refine ⟨r, h1, h2, ?_⟩
-  intro c hc
-  refine ⟨_, ?_, h4 c hc, ?_⟩
-  · exact inRange_foldr (fun (p : Nat × Int) c => rollCoord a.shape p.1 p.2 c) a.shape (fun p => p.1 < a.shape.length)
-      (fun x hx c hc => inRange_rollCoord a.shape c x.1 x.2 hc hx) _ hvalid c hc
-  · intro k hk
-    rw [foldr_rollCoord_getD a.shape hpos _ hvalid c hc k hk, accumShifts_total]
-    rfl
+  have hbc := broadcast_flat_same shift axs hlen hne
+  have hne' : shift.zip axs ≠ [] := by
+    cases shift with
+    | nil => exact absurd rfl hne
+    | cons _ _ => cases axs with
+      | nil => simp at hlen
+      | cons _ _ => simp
+  exact roll_total_of_bc a shift axs _ _ hbc hne' hwf hpos (fun p hp => hv _ (List.of_mem_zip hp).2)
 
 /-- **rolling by `s` and then by `−s` along the same axis restores the array** -/
 theorem roll_roll_neg (a : Arr α) (s ax : Int) (hwf : a.WF) (hpos : ∀ d ∈ a.shape, 0 < d)
@@ -494,6 +538,9 @@ example : (⟨[10, 11, 12], [3]⟩ : Arr Nat).roll [-7] none = .ok ⟨[11, 12, 1
 example : (⟨List.range 6, [2, 3]⟩ : Arr Nat).roll [7] (some [1]) = .ok ⟨[2, 0, 1, 5, 3, 4], [2, 3]⟩ := by decide
 example : (⟨List.range 6, [2, 3]⟩ : Arr Nat).roll [1, 1] (some [1, -1]) = .ok ⟨[1, 2, 0, 4, 5, 3], [2, 3]⟩ := by decide
 example : accumShifts [(1, 1), (0, 5), (1, 1)] = [(0, 5), (1, 2)] := by decide
+example : (⟨List.range 6, [2, 3]⟩ : Arr Nat).roll [1] (some [0, 1]) = .ok ⟨[5, 3, 4, 2, 0, 1], [2, 3]⟩ := by decide
+example : (⟨List.range 6, [2, 3]⟩ : Arr Nat).roll [1, 2] (some [1]) = .ok ⟨[0, 1, 2, 3, 4, 5], [2, 3]⟩ := by decide
+example : (⟨List.range 6, [2, 3]⟩ : Arr Nat).flip none = (⟨List.range 6, [2, 3]⟩ : Arr Nat).flip (some [0, 1]) := by decide
 example : (⟨List.range 6, [2, 3]⟩ : Arr Nat).rot90 0 1 [0, 1] = .ok ⟨[2, 5, 1, 4, 0, 3], [3, 2]⟩ := by decide
 example : (⟨List.range 6, [2, 3]⟩ : Arr Nat).rot90 0 7 [0, -1] = .ok ⟨[3, 0, 4, 1, 5, 2], [3, 2]⟩ := by decide
 example : (2 : Nat) ≤ (⟨List.range 6, [2, 3]⟩ : Arr Nat).ndim ∧ (-(2 : Int) ≤ -1 ∧ (-1 : Int) < 2) := by decide
